@@ -34,22 +34,23 @@ pub fn write_if_changed(p: &Path, content: &str) -> bool {
 }
 
 pub struct Built {
-    pub bin: PathBuf,
+    pub bins: Vec<PathBuf>,
     /// units rejected by rustc/the macro: id -> first error line
     pub rejected: BTreeMap<String, String>,
     pub rounds: usize,
     pub build_s: f64,
 }
 
-pub fn cargo_toml(env: &Env, name: &str, nutype_features: &[&str]) -> String {
+/// number of corpus crates built in parallel
+pub const SHARDS: usize = 14;
+
+pub fn member_toml(env: &Env, name: &str, nutype_features: &[&str]) -> String {
     let feats: Vec<String> = nutype_features.iter().map(|f| format!("{f:?}")).collect();
     format!(
         r#"[package]
 name = "{name}"
 version = "0.1.0"
 edition = "2021"
-
-[workspace]
 
 [dependencies]
 nutype = {{ path = "{repo}/nutype", features = [{feats}] }}
@@ -60,6 +61,18 @@ regex = "1"
 lazy_static = "1"
 once_cell = "1"
 arbitrary = "1"
+"#,
+        repo = env.repo.display(),
+        verif = env.verif.display(),
+        feats = feats.join(", ")
+    )
+}
+
+pub fn workspace_toml(members: &[String]) -> String {
+    format!(
+        r#"[workspace]
+resolver = "2"
+members = [{}]
 
 [profile.dev]
 opt-level = 1
@@ -75,20 +88,20 @@ debug-assertions = false
 overflow-checks = false
 incremental = false
 "#,
-        repo = env.repo.display(),
-        verif = env.verif.display(),
-        feats = feats.join(", ")
+        members.iter().map(|m| format!("{m:?}")).collect::<Vec<_>>().join(", ")
     )
 }
 
-/// Emit a run-time corpus crate for `decls` into `dir`.
-pub fn emit_rt(env: &Env, dir: &Path, name: &str, decls: &[Decl], skip: &BTreeSet<String>) {
-    std::fs::create_dir_all(dir.join("src")).ok();
-    write_if_changed(&dir.join("Cargo.toml"), &cargo_toml(env, name, &["serde", "regex", "arbitrary", "new_unchecked"]));
+pub const RT_FEATURES: &[&str] = &["serde", "regex", "arbitrary", "new_unchecked"];
+
+/// Emit the run-time corpus: a workspace of `shards` binary crates `<name>0..`, each with
+/// its own registry (twins stay in the crate of their base).
+pub fn emit_rt(env: &Env, dir: &Path, name: &str, decls: &[Decl], skip: &BTreeSet<String>, shards: usize) -> Vec<String> {
+    std::fs::create_dir_all(dir).ok();
     std::fs::create_dir_all(dir.join(".cargo")).ok();
     write_if_changed(&dir.join(".cargo/config.toml"), "[net]\noffline = true\n");
     if !dir.join("Cargo.lock").exists() {
-        // seed the lock file from the engine's (itself seeded from /repo/Cargo.lock) so resolution works offline
+        // seed the lock file (itself seeded from /repo/Cargo.lock) so resolution works offline
         let _ = std::fs::copy(env.verif.join("engine/corpus.lock"), dir.join("Cargo.lock"));
     }
     let kept: Vec<Decl> = decls
@@ -105,22 +118,54 @@ pub fn emit_rt(env: &Env, dir: &Path, name: &str, decls: &[Decl], skip: &BTreeSe
             d
         })
         .collect();
-    let mut wanted: BTreeSet<String> = BTreeSet::new();
-    for d in &kept {
-        let f = format!("{}.rs", d.id);
-        write_if_changed(&dir.join("src").join(&f), &d.render_module());
-        wanted.insert(f);
+    let shards = shards.min(kept.len().max(1));
+    let mut parts: Vec<Vec<Decl>> = vec![vec![]; shards];
+    let mut where_is: BTreeMap<String, usize> = BTreeMap::new();
+    let mut rr = 0usize;
+    for d in kept {
+        let k = match d.twin_of.as_ref().and_then(|t| where_is.get(t)) {
+            Some(k) => *k,
+            None => {
+                rr += 1;
+                (rr - 1) % shards
+            }
+        };
+        where_is.insert(d.id.clone(), k);
+        parts[k].push(d);
     }
-    write_if_changed(&dir.join("src/main.rs"), &vmodel::render_main(&kept));
-    wanted.insert("main.rs".into());
-    if let Ok(rd) = std::fs::read_dir(dir.join("src")) {
-        for e in rd.flatten() {
-            let n = e.file_name().to_string_lossy().to_string();
-            if !wanted.contains(&n) {
-                let _ = std::fs::remove_file(e.path());
+    let names: Vec<String> = (0..shards).map(|k| format!("{name}{k}")).collect();
+    write_if_changed(&dir.join("Cargo.toml"), &workspace_toml(&names));
+    for (k, part) in parts.iter().enumerate() {
+        let cdir = dir.join(&names[k]);
+        std::fs::create_dir_all(cdir.join("src")).ok();
+        write_if_changed(&cdir.join("Cargo.toml"), &member_toml(env, &names[k], RT_FEATURES));
+        let mut wanted: BTreeSet<String> = BTreeSet::new();
+        for d in part {
+            let f = format!("{}.rs", d.id);
+            write_if_changed(&cdir.join("src").join(&f), &d.render_module());
+            wanted.insert(f);
+        }
+        write_if_changed(&cdir.join("src/main.rs"), &vmodel::render_main(part));
+        wanted.insert("main.rs".into());
+        if let Ok(rd) = std::fs::read_dir(cdir.join("src")) {
+            for e in rd.flatten() {
+                let n = e.file_name().to_string_lossy().to_string();
+                if !wanted.contains(&n) {
+                    let _ = std::fs::remove_file(e.path());
+                }
             }
         }
     }
+    // remove stale member directories
+    if let Ok(rd) = std::fs::read_dir(dir) {
+        for e in rd.flatten() {
+            let n = e.file_name().to_string_lossy().to_string();
+            if n.starts_with(name) && e.path().is_dir() && !names.contains(&n) {
+                let _ = std::fs::remove_dir_all(e.path());
+            }
+        }
+    }
+    names
 }
 
 pub fn target_dir(env: &Env) -> PathBuf {
@@ -158,8 +203,8 @@ pub fn cargo_build(env: &Env, dir: &Path, release: bool, check_only: bool) -> (b
         }
         let file = primary_file(m);
         match file {
-            Some(f) if f.starts_with("src/") && f != "src/main.rs" => {
-                let unit = f.trim_start_matches("src/").trim_end_matches(".rs").to_string();
+            Some(f) if f.contains("src/") && !f.ends_with("src/main.rs") && !f.starts_with('/') => {
+                let unit = f.rsplit('/').next().unwrap_or("").trim_end_matches(".rs").to_string();
                 per_file.entry(unit).or_insert_with(|| format!("{code} {}", text.lines().next().unwrap_or("")));
             }
             _ => other.push(format!("{code} {text} @ {file:?}")),
@@ -178,7 +223,7 @@ fn primary_file(m: &Value) -> Option<String> {
     let mut cur = sp;
     loop {
         let f = cur["file_name"].as_str().unwrap_or("");
-        if f.starts_with("src/") {
+        if f.contains("src/") && !f.starts_with('/') {
             return Some(f.to_string());
         }
         match cur.get("expansion") {
@@ -194,11 +239,11 @@ pub fn build_rt(env: &Env, dir: &Path, name: &str, decls: &[Decl], release: bool
     let mut rejected: BTreeMap<String, String> = BTreeMap::new();
     for round in 1..=8 {
         let skip: BTreeSet<String> = rejected.keys().cloned().collect();
-        emit_rt(env, dir, name, decls, &skip);
+        let names = emit_rt(env, dir, name, decls, &skip, SHARDS);
         let (ok, per_file, other) = cargo_build(env, dir, release, false);
         if ok {
-            let bin = target_dir(env).join(if release { "release" } else { "debug" }).join(name);
-            return Ok(Built { bin, rejected, rounds: round, build_s: t0.elapsed().as_secs_f64() });
+            let bins = names.iter().map(|n| target_dir(env).join(if release { "release" } else { "debug" }).join(n)).collect();
+            return Ok(Built { bins, rejected, rounds: round, build_s: t0.elapsed().as_secs_f64() });
         }
         if per_file.is_empty() {
             return Err(format!("corpus build failed with errors not attributable to a unit: {}", other.join(" || ")));
